@@ -84,6 +84,8 @@ struct sp_world {
     }
 };
 
+template <typename F> struct sp_unwind_guard { F f; ~sp_unwind_guard() { f(); } };
+template <typename F> sp_unwind_guard(F) -> sp_unwind_guard<F>;
 // executes one op; returns true if the op needs "co_await" handling by the driver coroutine (SP_AWAIT / SP_PAUSE)
 inline void sp_apply(sp_world &W, const sp_op &op) {
     auto &A = W.obj[op.a];
@@ -170,12 +172,15 @@ inline void sp_apply(sp_world &W, const sp_op &op) {
     }
     case SP_CLEAR:
         if (!A) break;
-        A->clear();
+        // a quarter of the flushes happen in a destructor that runs while an exception unwinds the scope (cleanup code of ordinary users)
+        if ((op.k & 3) == 3) { try { sp_unwind_guard g{[&] { A->clear(); }}; throw 1; } catch (int) {} }
+        else A->clear();
         W.flush_model(W.model[op.a]);
         break;
     case SP_DESTROY:
         if (!A) break;
-        A.reset();
+        if ((op.k & 3) == 3) { try { sp_unwind_guard g{[&] { A.reset(); }}; throw 1; } catch (int) {} }
+        else A.reset();
         W.flush_model(W.model[op.a]);
         break;
     case SP_TYPED: {
